@@ -123,6 +123,34 @@ def run(c):
                 c.oracle_fail(l, "%s: expected `%s…`, got `%s`" % (kind, exp[:100], a[:120]), l)
             elif lmin is not None and ans.get(lmin, "").split(" ")[2:] != a.split(" ")[2:]:
                 c.oracle_fail(l, "%s decodes to a different value than the minimal encoding: `%s` vs `%s`" % (kind, a[:100], ans.get(lmin, "")[:100]), l)
+        # the same inputs decoded into an object that already holds a dense value: "fields missing at the end of a body are empty" and
+        # "appended fields are ignored" must also hold when the destination is reused (pooled objects, vector elements)
+        hist = []
+        byidx = {inst["idx"]: inst for inst, it in t2.tl2_items(sc)}
+        dense_of = {}
+        for l in lines:
+            f = l.split(" ")
+            kind = expect[l][0]
+            if expect[l][1] is None or f[4] == "-" or not (kind.startswith("evolution") or kind.startswith("reenc") or kind == "minimal"):
+                continue
+            idx = int(f[2])
+            if idx not in byidx or t2.is_enum_element(sc, byidx[idx]):
+                continue
+            if idx not in dense_of:
+                dense_of[idx] = [hx(g.top(byidx[idx], g.value(idx))) for _ in range(3)]
+            if rng.chance(1, 3 if c.thorough else 6):
+                hist.append("codec.seqx %s %s %s 2:%s 2:%s" % (f[1], f[2], f[3], rng.choice(dense_of[idx]) or "-", f[4]))
+        fresh = sorted({"codec.seqx %s 2:%s" % (" ".join(l.split(" ")[1:4]), l.split(" ")[5][2:]) for l in hist})
+        rh = c.tie("tl2-reuse:" + sc.sid, hist, sc.impl, model, prefix=pre)
+        rf = c.tie("tl2-reuse-fresh:" + sc.sid, fresh, sc.impl, model, prefix=pre)
+        fa = {l: a for l, a, _ in rf}
+        for l, a, _ in rh:
+            f = l.split(" ")
+            want = fa.get("codec.seqx %s %s" % (" ".join(f[1:4]), f[5]))
+            got = a.split(" | ")[-1]
+            if want is not None and got != want:
+                c.oracle_fail(l, "a (shorter / re-encoded / older-schema) TL2 body decoded into a reused object differs from the same body decoded "
+                                 "into a fresh one: reused %s, fresh %s" % (got[:80], want[:80]), l)
     c.extra["rule"] = ("type-directed TL2 values per TL2-enabled factory item: minimal encoding; admissible re-encodings (huge-form sizes, explicit zero "
                        "fields / empty objects, padded masks, unknown trailing fields and bytes, omitted fields present, non-0/1 bools, dictionary order, "
                        "shorter / longer fixed arrays, explicit index 0); every strict prefix (small) or 4 prefixes; oversize declared sizes; evolution pairs "
